@@ -25,7 +25,7 @@ PY_SINCE: dict[tuple[str, str], int] = {
     **{("typing", n): 10 for n in ("TypeAlias", "ParamSpec", "Concatenate", "TypeGuard")},
     **{("typing", n): 11 for n in ("NotRequired", "Required", "Self", "LiteralString", "Never", "Unpack")},
     ("typing", "override"): 12,
-    ("typing", "ReadOnly"): 13,
+    ("typing", "ReadOnly"): 13, ("typing", "TypeIs"): 13, ("typing", "NoDefault"): 13,
     ("__future__", "annotations"): 7,
     **{("collections.abc", n): 3 for n in ("Sequence", "Mapping", "Set", "Iterable", "Callable", "MutableMapping")},
     ("dataclasses", "dataclass"): 7, ("dataclasses", "field"): 7, ("dataclasses", "KW_ONLY"): 10,
@@ -245,7 +245,7 @@ def oracle_import(code: str, kind: str, minor: int) -> list[tuple[dict, str]]:
     return []
 
 
-def case(ck: Check, camp, kind: str, minor: int, doc, input_kind: str, opts: dict, precomputed=None) -> None:
+def case(ck: Check, camp, kind: str, minor: int, doc, input_kind: str, opts: dict, precomputed=None, shrink: bool = True) -> None:
     camp.evaluations += 1
     camp.hit(f"kind:{kind}")
     camp.hit(f"target:3.{minor}")
@@ -274,7 +274,7 @@ def case(ck: Check, camp, kind: str, minor: int, doc, input_kind: str, opts: dic
         cls = {**cls, "input_kind": input_kind, "kind": kind, "via": "generate", **option_flags(opts)}
         if cls.get("oracle") == "kw_only_field":
             cls["schema_asks"] = c19_kw.schema_asks_field_kw_only(doc, opts)
-        if ck.fail(cls, inp, obs, f"only names and constructs available in Python 3.{minor}") and len(ck.failures) == 1 and not isinstance(doc, str):
+        if ck.fail(cls, inp, obs, f"only names and constructs available in Python 3.{minor}") and len(ck.failures) == 1 and not isinstance(doc, str) and shrink:
             small = c19_kw.shrink_doc(inp, cls)   # the replay file carries the first failure: make it a small document
             if small is not None:
                 ck.failures[0].input = small
